@@ -38,6 +38,7 @@ type unitMsg struct {
 	Hashes   map[string][]uint64        `json:"h"`
 	Samples  []json.RawMessage          `json:"samples"`
 	Fails    []*Failure                 `json:"fails"`
+	Vec      map[string]string          `json:"vec"`
 	Trouble  string                     `json:"trouble"`
 	Units    int                        `json:"units"`
 	Extra    map[string]json.RawMessage `json:"-"`
@@ -55,10 +56,12 @@ type Agg struct {
 	Fails     []*Failure
 	Troubles  []string
 	UnitsDone map[int]bool
+	// Obs collects named observations: "run/key" -> value -> how often seen
+	Obs map[string]map[string]int
 }
 
 func newAgg() *Agg {
-	return &Agg{Counters: map[string]int64{}, Distinct: map[string]map[uint64]struct{}{}, UnitsDone: map[int]bool{}}
+	return &Agg{Counters: map[string]int64{}, Distinct: map[string]map[uint64]struct{}{}, UnitsDone: map[int]bool{}, Obs: map[string]map[string]int{}}
 }
 
 func (a *Agg) add(u *unitMsg, variant string) {
@@ -86,6 +89,13 @@ func (a *Agg) add(u *unitMsg, variant string) {
 		for _, h := range hs {
 			m[h] = struct{}{}
 		}
+	}
+	for k, v := range u.Vec {
+		key := fmt.Sprintf("%d/%s", u.Run, k)
+		if a.Obs[key] == nil {
+			a.Obs[key] = map[string]int{}
+		}
+		a.Obs[key][v]++
 	}
 	if len(a.Samples) < 12 {
 		a.Samples = append(a.Samples, u.Samples...)
